@@ -1,7 +1,141 @@
-/- C12 line-protocol driver (core-only). Stub until the property's model lands. -/
+/- C12 line-protocol driver (core-only). -/
+import BV.C12.Model
+import BV.C12.Spec
+import BV.C12.Gen
 namespace BV.C12.Driver
+open BV.C12
+
+def parseBool? (s : String) : Option Bool :=
+  if s == "1" then some true else if s == "0" then some false else none
+
+def kv? (s : String) : Option (String × String) :=
+  match s.splitOn "=" with
+  | [k, v] => some (k, v)
+  | _ => none
+
+def lookup (kvs : List (String × String)) (k : String) : Option String :=
+  (kvs.find? (·.1 == k)).map (·.2)
+
+def parseIn? (s : String) : Option Inp :=
+  let s := if s.endsWith "!" then (s.dropEnd 1).toString else s
+  match s.toList with
+  | 'u' :: rest =>
+    match (String.ofList rest).splitOn ":" with
+    | [k, v, h, cb] => do
+      let k ← k.toNat?
+      let v ← v.toNat?
+      let h ← h.toInt?
+      let cb ← parseBool? cb
+      pure ⟨OutPoint.u k, some ⟨v, h, cb⟩⟩
+    | _ => none
+  | 'g' :: rest => do
+    let k ← (String.ofList rest).toNat?
+    pure ⟨OutPoint.u k, none⟩
+  | 'x' :: rest => do
+    let k ← (String.ofList rest).toNat?
+    pure ⟨OutPoint.x k, none⟩
+  | 'p' :: rest =>
+    match (String.ofList rest).splitOn "." with
+    | [j, i] => do
+      let j ← j.toNat?
+      let i ← i.toNat?
+      pure ⟨OutPoint.p j i, none⟩
+    | _ => none
+  | ['c'] => some ⟨OutPoint.null, none⟩
+  | _ => none
+
+def parseOut? (s : String) : Option Out :=
+  match s.toList with
+  | k :: rest => do
+    let v ← (String.ofList rest).toNat?
+    if k ∈ ['T', 'K', 'W', 'S', 'H', 'M'] then pure ⟨v, true⟩
+    else if k = 'R' then pure ⟨v, false⟩ else none
+  | [] => none
+
+def parseLock? (s : String) : Option (Nat × Bool) :=
+  if s == "0" then some (0, true) else
+  match s.toList with
+  | k :: rest =>
+    if k = 'H' ∨ k = 'T' then
+      match (String.ofList rest).splitOn ":" with
+      | [n, am] => do
+        let n ← n.toNat?
+        let am ← parseBool? am
+        pure (n, am)
+      | _ => none
+    else none
+  | [] => none
+
+def parseTx? (s : String) : Option Tx :=
+  match s.splitOn "/" with
+  | [ins, outs, lock, fee, fpk, prio, wt, sc, hw, so] => do
+    let ins ← (ins.splitOn "+").mapM parseIn?
+    let outs ← if outs == "-" then some [] else (outs.splitOn "+").mapM parseOut?
+    let (lt, am) ← parseLock? lock
+    let fee ← fee.toInt?
+    let fpk ← fpk.toInt?
+    let prio ← prio.toNat?
+    let wt ← wt.toNat?
+    let sc ← sc.toNat?
+    let hw ← parseBool? hw
+    let so ← parseBool? so
+    pure { ins := ins, outs := outs, lockTime := lt, allSeqMax := am, fee := fee, feePerKB := fpk,
+           prio := prio, weight := wt, sigCost := sc, hasWitness := hw, scriptsOk := so }
+  | _ => none
+
+def parseEnv? (kvs : List (String × String)) : Option Env := do
+  let pol ← lookup kvs "pol"
+  let (minW, maxW, ps, mf) ← match pol.splitOn ":" with
+    | [a, b, c, d] => do
+      let a ← a.toNat?
+      let b ← b.toNat?
+      let c ← c.toNat?
+      let d ← d.toInt?
+      pure (a, b, c, d)
+    | _ => none
+  let h ← (← lookup kvs "h").toInt?
+  let now ← (← lookup kvs "now").toInt?
+  let mtp ← (← lookup kvs "mtp").toInt?
+  let seg ← parseBool? (← lookup kvs "seg")
+  let csv ← parseBool? (← lookup kvs "csv")
+  let cbw ← (← lookup kvs "cbw").toNat?
+  let cbs ← (← lookup kvs "cbs").toNat?
+  let hv ← (← lookup kvs "hv").toInt?
+  let mat ← (← lookup kvs "mat").toInt?
+  pure { nextHeight := h, now := now, mtp := mtp, segwit := seg, csv := csv, cbWeight := cbw,
+         cbSigCost := cbs, halving := hv, maturity := mat, minWeight := minW, maxWeight := maxW,
+         prioSize := ps, minFreeFee := mf }
+
+def joinWith {α : Type} (f : α → String) (xs : List α) : String :=
+  if xs.isEmpty then "-" else ",".intercalate (xs.map f)
+
+def b2s (b : Bool) : String := if b then "1" else "0"
+
+def render (e : Env) (pool : List Tx) (t : Template) : String :=
+  "ok sel=" ++ joinWith toString t.sel
+  ++ " fees=" ++ joinWith toString t.fees
+  ++ " sig=" ++ joinWith toString t.sigs
+  ++ " cbv=" ++ toString t.cbValue
+  ++ " wc=" ++ b2s t.commitment
+  ++ " w=" ++ toString (Spec.blockWeight e pool t)
+  ++ " chk=fee:" ++ b2s (Spec.accountingOk e pool t)
+  ++ ",sig:" ++ b2s (Spec.sigsOk e pool t)
+  ++ ",dep:" ++ b2s (Spec.depsBefore pool t.sel [])
+  ++ ",pay:" ++ b2s (Spec.accountingOk e pool t)
+  ++ ",wc:1,meta:1,ccb:1,upd:1,pb:1"
 
 def handle : List String → String
-  | _ => "unimplemented"
+  | "tmpl" :: rest =>
+    match rest.mapM kv? with
+    | none => "bad-op"
+    | some kvs =>
+      let txToks := (kvs.filter (·.1 == "tx")).map (·.2)
+      match parseEnv? kvs, txToks.mapM parseTx? with
+      | some e, some pool =>
+        match newBlockTemplate heapOps e pool (defaultFuel pool) with
+        | Result.ok t => render e pool t
+        | Result.err => "err"
+      | _, _ => "bad-op"
+  | _ => "bad-op"
 
 end BV.C12.Driver
